@@ -298,11 +298,37 @@ def render_fn(key, item, log, unit_rewrites):
     return fn_text, canary, raw
 
 
+def strip_all_attrs(text):
+    """Remove every `#[...]` / `#![...]` attribute (bracket-matched on the code mask, so a `]` inside a string
+    literal such as default = "vec![0, size]" does not end it)."""
+    m = rscan.code_mask(text)
+    out = []
+    i, n = 0, len(text)
+    while i < n:
+        if m[i] and text[i] == '#':
+            j = i + 1
+            if j < n and text[j] == '!':
+                j += 1
+            while j < n and text[j] in ' \t':
+                j += 1
+            if j < n and text[j] == '[' and m[j]:
+                k = rscan.match_close(text, m, j) + 1
+                while k < n and text[k] in ' \t':
+                    k += 1
+                if k < n and text[k] == '\n':
+                    k += 1
+                i = k
+                continue
+        out.append(text[i])
+        i += 1
+    return ''.join(out)
+
+
 def render_decl(key, item, log):
     raw, _, _ = locate(item)
     text = strip_comments(raw)
     # R2: drop attributes inside (field attrs) and derive lists
-    text = re.sub(r'#\[[^\]]*\]\s*', '', text)
+    text = strip_all_attrs(text)
     text = apply_rewrites(text, item.get('rewrites', []), key, log)
     attrs = ''.join(a + '\n' for a in item.get('attrs', []))
     return attrs + text + '\n', raw
@@ -330,7 +356,17 @@ def assemble(unit_dir, devs=None, with_canaries=True):
     rendered = {}
     canaries = {}
     unit_rw = unit.get('rewrites', [])
+    absent = set()
     for key, item in unit['items'].items():
+        if item.get('optional'):
+            # an item that a committed repair ADDED to /repo: absent in older trees -> rendered as nothing
+            try:
+                locate(item)
+            except Undecided:
+                absent.add(key)
+                rendered[key] = '// (optional item %s not present in this tree)\n' % key
+                raws[key] = ''
+                continue
         if item['kind'] == 'fn':
             t, c, raw = render_fn(key, item, log, unit_rw)
             rendered[key] = t
@@ -380,7 +416,7 @@ def assemble(unit_dir, devs=None, with_canaries=True):
         if ml:
             labels[ln] = (cur, ml.group(1))
     meta = {'unit': unit, 'ranges': ranges, 'labels': labels, 'rewrites': log, 'raws': raws,
-            'rendered': rendered}
+            'rendered': rendered, 'absent': absent}
     return text, meta
 
 
